@@ -145,6 +145,7 @@ class Real:
         assert self.allclose is user_interface.allclose
         self.dir = tempfile.mkdtemp(prefix="c18_")
         self.n = 0
+        self.raised = 0
         self.x = [np.zeros((1,), np.float32)]
 
     def close(self):
@@ -168,6 +169,18 @@ class Real:
         onnx.save(m, p)
         return p
 
+    def call(self, fn, path, xs, *args, **kw) -> tuple[bool, str]:
+        """The real allclose; an exception raised by the comparison itself (not by ONNX Runtime
+        loading/running the file) is a verdict 'not a match' and is recorded as such."""
+        try:
+            ok, msg = self.allclose(fn, path, xs, *args, **kw)
+            return bool(ok), str(msg)
+        except Exception as e:
+            if "onnxruntime" in type(e).__module__ or "onnxruntime" in type(e).__name__.lower():
+                raise
+            self.raised += 1
+            return False, f"raised {type(e).__name__}: {str(e)[:160]}"
+
     def run(self, exp: list, got: list, rtol: float, atol: float, nchw: list,
             via_jax: bool = False, **kw) -> tuple[bool, str]:
         path = self.const_model(got)
@@ -181,8 +194,8 @@ class Real:
             return outs[0] if len(outs) == 1 else tuple(outs)
 
         try:
-            ok, msg = self.allclose(fn, path, self.x, rtol=rtol, atol=atol,
-                                    outputs_as_nchw=(list(nchw) if nchw else None), **kw)
+            ok, msg = self.call(fn, path, self.x, rtol=rtol, atol=atol,
+                                outputs_as_nchw=(list(nchw) if nchw else None), **kw)
         finally:
             try:
                 os.remove(path)
@@ -508,14 +521,25 @@ def gen_cases(rng: common.Rng, thorough: bool) -> list[Case]:
                       tag="complex/special/nan-im-differs"))
     cases.append(Case([e], [np.array([[np.nan, 1.0], [2.0, -np.inf]], np.float32)], 1e-3, 1e-5,
                       tag="complex/special/inf-sign"))
+    # `re + 1j*im` with an infinite imaginary part has a NaN real part: any NaN-holding expectation matches
+    cases.append(Case([np.array([complex(np.nan, 5.0)], np.complex64)], [np.array([[2.0, np.inf]], np.float32)],
+                      1e-3, 1e-5, tag="complex/special/repack-inf-vs-nan"))
+    cases.append(Case([np.array([complex(2.0, np.inf)], np.complex64)], [np.array([[2.0, np.inf]], np.float32)],
+                      1e-3, 1e-5, tag="complex/special/repack-inf-identity"))
+    cases.append(Case([np.array([complex(np.inf, 1.0)], np.complex128)], [np.array([[np.inf, 1.0]], np.float64)],
+                      1e-3, 1e-5, tag="complex/special/repack-re-inf-identity"))
+    # a float64 (re, im) pair that only rounds to the complex64 expectation
+    cases.append(Case([np.array([complex(1.0, -2.0)], np.complex64)],
+                      [np.array([[1.0 + 2.0 ** -30, -2.0]], np.float64)], 0.0, 0.0, tag="round/c64<-f64pair"))
     return cases
 
 
 # ----------------------------------------------------------------------------- cast model validation
 
 
-def cast_sweep(chk: Check, rng: common.Rng, thorough: bool) -> None:
-    """numpy `astype` vs the model's `castEl` on edge values + seeded values for every dtype pair."""
+def cast_sweep(chk: Check, rng: common.Rng, thorough: bool):
+    """numpy `astype` vs the model's `castEl` on edge values + seeded values for every dtype pair.
+    Returns (driver lines, finish(answers))."""
     kinds = ["bool"] + INT_KINDS + FLT_KINDS
     lines, meta = [], []
     for sk in kinds + ["c128", "c64"]:
@@ -558,25 +582,27 @@ def cast_sweep(chk: Check, rng: common.Rng, thorough: bool) -> None:
                 dst = src.astype(NP[dk])
             lines.append(json.dumps({"op": "cast", "src": sk, "dst": dk, "v": [enc_el(v, sk) for v in src]}))
             meta.append((sk, dk, src, dst))
-    answers = common.run_driver("C18", lines)
-    n, undefined, bad = 0, 0, []
-    for (sk, dk, src, dst), ans in zip(meta, answers):
-        outs = ans.split(" ")
-        assert len(outs) == len(src), (sk, dk, ans[:200])
-        for v, d, o in zip(src, dst, outs):
-            n += 1
-            if o == "none":
-                undefined += 1
-                continue
-            want = enc_el(d, dk)
-            want = ",".join(want) if isinstance(want, list) else f"{want},0"
-            if o != want:
-                bad.append({"src": sk, "dst": dk, "value": repr(v), "numpy": want, "model": o})
-    chk.info("cast_model_validation", {"values": n, "c_undefined_skipped": undefined, "mismatches": len(bad)})
-    chk.add("traces_validated_against_impl", n)
-    if bad:
-        # the hand-written model of numpy's astype is wrong: model defect, not a defect of /repo
-        raise RuntimeError(f"cast model disagrees with numpy astype: {bad[:6]}")
+    def finish(answers: list[str]) -> None:
+        n, undefined, bad = 0, 0, []
+        for (sk, dk, src, dst), ans in zip(meta, answers):
+            outs = ans.split(" ")
+            assert len(outs) == len(src), (sk, dk, ans[:200])
+            for v, d, o in zip(src, dst, outs):
+                n += 1
+                if o == "none":
+                    undefined += 1
+                    continue
+                want = enc_el(d, dk)
+                want = ",".join(want) if isinstance(want, list) else f"{want},0"
+                if o != want:
+                    bad.append({"src": sk, "dst": dk, "value": repr(v), "numpy": want, "model": o})
+        chk.info("cast_model_validation", {"values": n, "c_undefined_skipped": undefined, "mismatches": len(bad)})
+        chk.add("traces_validated_against_impl", n)
+        if bad:
+            # the hand-written model of numpy's astype is wrong: model defect, not a defect of /repo
+            raise RuntimeError(f"cast model disagrees with numpy astype: {bad[:6]}")
+
+    return lines, finish
 
 
 # ----------------------------------------------------------------------------- x64 flag
@@ -693,7 +719,7 @@ def program_cases(chk: Check, rng: common.Rng, real: Real, thorough: bool) -> tu
                 names = [i.name for i in model.graph.input]
                 feeds = dict(zip(names, xs))
             got = ort_run(model, feeds)
-            ok, msg = real.allclose(fn, p, list(xs), params, rtol=rtol, atol=atol)
+            ok, msg = real.call(fn, p, list(xs), params, rtol=rtol, atol=atol)
         finally:
             os.remove(p)
         lines.append(cmp_line(exp, got, rtol, atol, []))
@@ -762,9 +788,16 @@ def program_cases(chk: Check, rng: common.Rng, real: Real, thorough: bool) -> tu
 # ----------------------------------------------------------------------------- the check
 
 
-def finding_key(ek: str, gk: str, lossy: bool, tag: str) -> dict:
+def finding_key(ek: str, gk: str, lossy: bool, tag: str, exp=None, got=None) -> dict:
     if lossy:
-        return {"kind": "lossy_cast_before_compare", "cast": cast_category(ek, gk),
+        cat = cast_category(ek, gk)
+        if klass(ek) == "complex" and exp is not None:
+            for e, g in zip(exp, got):
+                g = np.asarray(g)
+                if np.asarray(e).dtype.kind == "c" and g.dtype.kind == "f" and g.ndim >= 1 and g.shape[-1] == 2 \
+                        and not np.all(np.isfinite(g[..., 1])):
+                    cat = "complex_repack_nonfinite"
+        return {"kind": "lossy_cast_before_compare", "cast": cat,
                 "expected_kind": ek, "got_kind": gk}
     return {"kind": "unsound_match", "expected_kind": ek, "got_kind": gk, "case": tag}
 
@@ -803,7 +836,7 @@ def judge(chk: Check, tag: str, real_ok: bool, real_msg: str, answer: str, repla
     # --- oracle: the property itself
     if real_ok and not spec_ok:
         if model_ok or verdict.startswith("unspecified"):
-            key = finding_key(ek, gk, lossy, tag)
+            key = finding_key(ek, gk, lossy, tag, exp, got)
         else:
             key = {"kind": "unsound_match_not_explained_by_model", "expected_kind": ek, "got_kind": gk, "case": tag}
         listed = chk.finding(key, f"allclose reports a match for outputs that do not agree ({tag}: expected "
@@ -819,6 +852,22 @@ def judge(chk: Check, tag: str, real_ok: bool, real_msg: str, answer: str, repla
                           name=None, no_failing_input=True)
 
 
+def near_boundary(c: "Case") -> bool:
+    """closer to the tolerance boundary than floating-point evaluation resolves?"""
+    for e, g in zip(c.exp, c.got):
+        e, g = np.asarray(e), np.asarray(g)
+        if e.shape != g.shape or e.dtype.kind == "c" or g.dtype.kind == "c":
+            continue
+        ek = KIND_OF[e.dtype]
+        comp = ek if ek in FLT_KINDS else "f64"
+        with np.errstate(all="ignore"):
+            gc = g.astype(e.dtype)
+        m = exact_margin(e, gc, c.rtol, c.atol)
+        if m is not None and m < MARGIN[comp]:
+            return True
+    return False
+
+
 def run(chk: Check) -> None:
     rng = common.Rng(chk.seed)
     thorough = chk.tier == "thorough"
@@ -828,88 +877,90 @@ def run(chk: Check) -> None:
         # is an infrastructure problem of the check, not a statement about /repo
         raise RuntimeError(f"Lean obligations of C18 do not build: {getattr(chk, 'broken', [])}")
 
-    cast_sweep(chk, rng, thorough)
+    # every request to the Lean driver is collected first and answered in ONE driver process
+    requests: list[tuple[str, Any]] = []
+
+    cast_lines, cast_finish = cast_sweep(chk, rng, thorough)
+    n_cast = len(cast_lines)
+    requests += [(l, None) for l in cast_lines]
 
     real = Real()
     stats = {k: 0 for k in ["cases", "real_match", "spec_agrees", "lossy", "unspecified", "reason_agree",
                             "disagreements", "unsound_listed", "unsound_unlisted", "dropped_near_boundary",
                             "skipped_ort"]}
+    tags: dict[str, int] = {}
     try:
-        cases = gen_cases(rng, thorough)
-        kept: list[Case] = []
-        for c in cases:
-            # drop cases closer to the tolerance boundary than floating-point evaluation resolves
-            near = False
-            for e, g in zip(c.exp, c.got):
-                e, g = np.asarray(e), np.asarray(g)
-                if e.shape != g.shape or e.dtype.kind == "c" or g.dtype.kind == "c":
-                    continue
-                ek = KIND_OF[e.dtype]
-                comp = ek if ek in FLT_KINDS else "f64"
-                with np.errstate(all="ignore"):
-                    gc = g.astype(e.dtype)
-                m = exact_margin(e, gc, c.rtol, c.atol)
-                if m is not None and m < MARGIN[comp]:
-                    near = True
-            if near:
+        # ---- systematic perturbations through the REAL allclose
+        for c in gen_cases(rng, thorough):
+            if near_boundary(c):
                 stats["dropped_near_boundary"] += 1
-            else:
-                kept.append(c)
-        lines = [cmp_line(c.exp, c.got, c.rtol, c.atol, c.nchw) for c in kept]
-        answers = common.run_driver("C18", lines)
-        tags: dict[str, int] = {}
-        for c, ans in zip(kept, answers):
-            if ans.startswith("bad"):
-                raise RuntimeError(f"driver rejected case {c.tag}: {ans}")
+                continue
             try:
                 ok, msg = real.run(c.exp, c.got, c.rtol, c.atol, c.nchw, via_jax=c.via_jax)
             except Exception as e:  # ORT cannot load / run this constant model
                 stats["skipped_ort"] += 1
                 chk.log(f"skipped {c.tag}: {type(e).__name__}: {str(e)[:120]}")
                 continue
-            fam = c.tag.split("/")[0]
-            tags[fam] = tags.get(fam, 0) + 1
-            nontrivial = not (fam == "identity")
-            chk.count({"tag": c.tag, "rtol": c.rtol, "atol": c.atol, "nchw": c.nchw,
-                       "expected": [enc_tensor(e) for e in c.exp][:2], "got": [enc_tensor(g) for g in c.got][:2],
-                       "real": ok, "model": ans}, nontrivial=nontrivial)
-            judge(chk, c.tag, ok, msg, ans, {"case": c.describe(), "how": "harness/props/c18.py::replay"},
-                  c.exp, c.got, stats)
-        chk.info("case_families", tags)
 
-        # real exported models, perturbed; feed construction
+            def handle(ans: str, c=c, ok=ok, msg=msg) -> None:
+                if ans.startswith("bad"):
+                    raise RuntimeError(f"driver rejected case {c.tag}: {ans}")
+                fam = c.tag.split("/")[0]
+                tags[fam] = tags.get(fam, 0) + 1
+                chk.count({"tag": c.tag, "rtol": c.rtol, "atol": c.atol, "nchw": c.nchw,
+                           "expected": [enc_tensor(e) for e in c.exp][:2],
+                           "got": [enc_tensor(g) for g in c.got][:2], "real": ok, "model": ans},
+                          nontrivial=(fam != "identity"))
+                judge(chk, c.tag, ok, msg, ans, {"case": c.describe(), "how": "harness/props/c18.py::replay"},
+                      c.exp, c.got, stats)
+
+            requests.append((cmp_line(c.exp, c.got, c.rtol, c.atol, c.nchw), handle))
+
+        # ---- real exported models, perturbed; feed construction
         plines, precs = program_cases(chk, rng, real, thorough)
-        pans = common.run_driver("C18", plines)
-        for r, ans in zip(precs, pans):
-            chk.count({"tag": r["tag"], "real": r["real"][0], "model": ans}, nontrivial=True)
-            chk.add("programs", 1)
-            judge(chk, r["tag"], r["real"][0], r["real"][1], ans,
-                  {"case": {"tag": r["tag"], "rtol": r["rtol"], "atol": r["atol"],
-                            "expected": [enc_tensor(e) for e in r["exp"]], "got": [enc_tensor(g) for g in r["got"]]},
-                   "how": "perturbed copy of a real export; see harness/props/c18.py::program_cases"},
-                  r["exp"], r["got"], stats)
+        for line, r in zip(plines, precs):
+            def handle_p(ans: str, r=r) -> None:
+                chk.count({"tag": r["tag"], "real": r["real"][0], "model": ans}, nontrivial=True)
+                chk.add("programs", 1)
+                judge(chk, r["tag"], r["real"][0], r["real"][1], ans,
+                      {"case": {"tag": r["tag"], "rtol": r["rtol"], "atol": r["atol"],
+                                "expected": [enc_tensor(e) for e in r["exp"]],
+                                "got": [enc_tensor(g) for g in r["got"]]},
+                       "how": "perturbed copy of a real export; see harness/props/c18.py::program_cases"},
+                      r["exp"], r["got"], stats)
+            requests.append((line, handle_p))
 
-        # x64 flag
-        xc = x64_cases(rng, thorough)
-        xans = common.run_driver("C18", [json.dumps(x64_prog(c)) for c in xc])
-        xbad = 0
-        for c, ans in zip(xc, xans):
+        # ---- x64 flag
+        xstat = {"n": 0, "bad": 0}
+        for c in x64_cases(rng, thorough):
             after, raised = x64_real(c, real)
-            m_after, m_raised = [s == "true" for s in ans.split(" ")]
-            chk.count({"x64": c, "flag_after": after, "raised": raised, "model": ans}, nontrivial=c["body"] != "ok")
-            if after != c["flag"]:
-                xbad += 1
-                chk.finding({"kind": "x64_flag_not_restored", "api": c["api"], "body": c["body"],
-                             "flag": c["flag"], "enable_double_precision": c["en"]},
-                            f"{c['api']} leaves jax_enable_x64={after} (was {c['flag']})", {"x64_case": c})
-            elif (after, raised) != (m_after, m_raised):
-                xbad += 1
-                chk.violation({"x64_case": c, "real": [after, raised], "model": ans,
-                               "correspondence": "x64 program model and real code disagree (flag restored)"},
-                              no_failing_input=True)
-        chk.info("x64_cases", {"n": len(xc), "bad": xbad})
+
+            def handle_x(ans: str, c=c, after=after, raised=raised) -> None:
+                m_after, m_raised = [s == "true" for s in ans.split(" ")]
+                xstat["n"] += 1
+                chk.count({"x64": c, "flag_after": after, "raised": raised, "model": ans},
+                          nontrivial=c["body"] != "ok")
+                if after != c["flag"]:
+                    xstat["bad"] += 1
+                    chk.finding({"kind": "x64_flag_not_restored", "api": c["api"], "body": c["body"],
+                                 "flag": c["flag"], "enable_double_precision": c["en"]},
+                                f"{c['api']} leaves jax_enable_x64={after} (was {c['flag']})", {"x64_case": c})
+                elif (after, raised) != (m_after, m_raised):
+                    xstat["bad"] += 1
+                    chk.violation({"x64_case": c, "real": [after, raised], "model": ans,
+                                   "correspondence": "x64 program model and real code disagree (flag restored)"},
+                                  no_failing_input=True)
+            requests.append((json.dumps(x64_prog(c)), handle_x))
     finally:
         real.close()
+
+    answers = common.run_driver("C18", [l for l, _ in requests])
+    cast_finish(answers[:n_cast])
+    for (_, h), ans in zip(requests[n_cast:], answers[n_cast:]):
+        h(ans)
+    chk.info("case_families", tags)
+    chk.info("x64_cases", xstat)
+    chk.info("real_allclose_raised_instead_of_returning", real.raised)
 
     chk.info("tie", stats)
     chk.add("traces_validated_against_impl", stats["cases"])
